@@ -165,6 +165,28 @@ PROPS = {
         level_text='Contract of the CALL arm against a recording helper, for all ids, arguments and depths.',
         assumptions=['JIT and Cranelift call sites: units jit / cranelift'],
     ),
+    'C09': dict(
+        title='Each VM kind presents the documented execution context',
+        parts=[
+            Part('interp', lambda h: h == 'interp_prologue', lambda h, c, info=None: 'ensures:' in desc(c) or (in_file(c, INTERP_SRC) and kani.is_panic_check(c)),
+                 'interpreter prologue (verbatim): r1 = mbuff | mem | 0, r10 = top of a private zeroed 512-byte stack, other registers 0, no program => Err'),
+            Part('vmapi', lambda h: h.startswith(('bounded_fixed_', 'raw_', 'nodata_', 'mbuff_execute')), lambda h, c, info=None: 'ensures:' in desc(c) or (in_file(c, 'src/lib.rs') and kani.is_panic_check(c)),
+                 'VM wrappers (verbatim methods of lib.rs): what each VM kind hands to the interpreter / compiled code; fixed-metadata VM writes &packet[0] and one-past-the-end at the configured offsets before every execution (interpreter and Cranelift), passes the offsets to the JIT prologue - offsets <= 120 (BOUNDED)'),
+            Part('jit', lambda h: h.startswith('prologue_'), lambda h, c, info=None: 'ensures:' in desc(c) and 'rsp modulo 16' not in desc(c) or (in_file(c, 'src/jit.rs') and kani.is_panic_check(c)),
+                 'JIT prologue for the three (use_mbuff, update_data_ptr) modes against the x86 semantics: r1, r10, 512-byte stack, stores of mem / mem+len at mbuff+offsets'),
+        ],
+        level_text='Proof of the interpreter prologue, of every VM wrapper method and of the JIT prologue; the fixed-metadata buffer is exercised with offsets <= 120 (bounded, labelled); Cranelift prelude: unit cranelift (not yet claimed here).',
+        assumptions=['FixedMbuff offsets bounded by 120 (real Vec<u8> allocation under CBMC)', 'Cranelift prelude (r1 selection, stack slot) is not covered'],
+    ),
+    'C10': dict(
+        title='Loading, verifying and compiling stay consistent over any history of API calls',
+        parts=[
+            Part('vmapi', lambda h: True, lambda h, c, info=None: 'ensures:' in desc(c) or (in_file(c, 'src/lib.rs') and kani.is_panic_check(c)),
+                 'representation invariant I (program accepted by the verifier in force, frame sizes computed from it, compiled artefacts compiled from it) assumed before and proved after every public method of the four VM types; failed set_program/set_verifier/set_stack_usage_calculator/compile leave the abstract view unchanged; no-program / not-compiled errors'),
+        ],
+        level_text='Inductive representation invariant over the verbatim methods of lib.rs: holds after every finite history of API calls; execute_* take &self and the shadows have no interior mutability, so results are a function of (program, helpers, buffers).',
+        assumptions=['re-registering a helper after compiling does not recompile: compiled code keeps the helper addresses of compile time (not part of I)'],
+    ),
     'C13': dict(
         title='The assembler emits exactly the encoding each mnemonic and operand list denotes',
         parts=[
